@@ -40,9 +40,15 @@ def encode_rungs(F, CE, b):
         if n.get("k") == "MethodCall" and n["name"] == "push":
             t = Wk.T.term(n["args"][0])
             # enclosing rung = nearest If with a `value < BOUND` condition
+            # (a push in the else branch of an `if value < BOUND` is not under that bound: in an else-if chain the
+            # final else is the unguarded fallback, like the code after the last early return)
             rung = None
-            for p in reversed(pm.get(id(n), ())):
+            anc = list(pm.get(id(n), ())) + [n]
+            for i in range(len(anc) - 2, -1, -1):
+                p = anc[i]
                 if p.get("k") == "If" and not is_debug_only(F, p):
+                    if p.get("el") is anc[i + 1]:
+                        continue
                     rung = p
                     break
             state["rungs"].append((id(rung) if rung is not None else 0, rung, t))
@@ -348,8 +354,14 @@ def r09_2(ctx, rr):
             seq.append((n["name"], whole))
         if n.get("k") == "AssignOp" and n["op"] == "+=" and Wk.T.term(n["l"]) == ("field", pslf, "len") and Wk.T.term(n["r"]) == ("int", 1):
             seq.append(("len+1", True))
+            lhs_ids.add(id(n["l"]))
+        elif n.get("k") == "Field" and n.get("name") == "len" and id(n) not in lhs_ids and any(x[0] == "len+1" for x in seq) and Wk.T.term(n) == ("field", pslf, "len"):
+            # the count is read after it was advanced: the block test / statistics would see the next index
+            seq.append(("len read after len+1", False))
+    lhs_ids = set()
     Walker(F, pb, on_node=on_state).run()
-    rr.check([x[0] for x in seq] == ["clear", "extend_from_slice", "len+1"] and all(x[1] for x in seq), "RearCodedListBuilder::push:state", "push must remember the whole new string as last_str (clear, then extend from its bytes) and count it once; found %s" % seq, pb.span)
+    # the count is advanced once, after every use of it; remembering the string (clear, then extend) is independent of it
+    rr.check([x[0] for x in seq if x[0] != "len+1"] == ["clear", "extend_from_slice"] and [x[0] for x in seq].count("len+1") == 1 and all(x[1] for x in seq), "RearCodedListBuilder::push:state", "push must remember the whole new string as last_str (clear, then extend from its bytes) and count it once; found %s" % seq, pb.span)
     # decoders: truncate by the decoded rear length before appending
     for path in (r"^<dict::rear_coded_list::Lend<'_, D, P> as lender::Lender>::next$", r"^dict::rear_coded_list::RearCodedList::<D, P>::get_in_place$", r"^dict::rear_coded_list::RearCodedList::<D, P>::index_of_sorted$"):
         b = F.one(path)
